@@ -60,7 +60,8 @@ class TaggedCenteredFieldType(TaggedFieldType):
     ALIGN = ALIGN_CENTER
 
 
-D_MODIFIERS = ['u', 'p/q', '%d/%m/%y', 'x', 'full']
+# (the empty modifier - "d/" - is a modifier too: the field type shows its mark with nothing behind it)
+D_MODIFIERS = ['u', 'p/q', '%d/%m/%y', 'x', 'full', '']
 
 
 def mk_field_types(centered=None, bounded=None):
@@ -133,7 +134,8 @@ def gen_col(rng, allow_hidden=False):
     if r < 0.3:
         lo = rng.choice([0, 0, 1, 2, 3, 5, 6])
         hi = lo + rng.choice([0, 0, 1, 3, 8, 10, 100])
-        spec += ":%d-%d" % (lo, hi)
+        # (a range may be typed with blanks around its numbers)
+        spec += rng.choice([":%d-%d", ":%d-%d", ":%d-%d", ":%d - %d", ": %d -%d", ":%d- %d "]) % (lo, hi)
     elif r < 0.5:
         lo = hi = rng.choice([0, 1, 2, 3, 4, 5, 8])
         spec += ":%d" % lo
@@ -184,7 +186,7 @@ def cell_text(rec, col):
     v = rec[FIELDS.index(col['field'])]
     if col['field'] == 'st':
         return enum_text(v, col['mod'])
-    if col['field'] == 'd' and col.get('mod'):
+    if col['field'] == 'd' and col.get('mod') is not None:
         return str(v) + "~" + col['mod']
     return str(v)
 
@@ -216,7 +218,7 @@ BORDER_RE = re.compile(r"(\+-*)+\+")
 SKIP_RE = re.compile(r"^\.\.\. (\d+) records skipped *$")
 
 
-def check_layout(lines, recs, cols, limits, header, footer, titles):
+def check_layout(lines, recs, cols, limits, header, footer, titles, first_print=False):
     """independent layout model. returns list of (mechanism, detail); `cols` = visible columns"""
     problems = []
 
@@ -357,6 +359,10 @@ def check_layout(lines, recs, cols, limits, header, footer, titles):
             text = cell_text(x, c)
             if not cell_ok(cell, text, w):
                 P("cell-shows-wrong-text", cell=cell, value=text, width=w, col=c['spec'])
+            elif first_print and len(text) > w and w < c['hi']:
+                # (a value is cut when it is too long for the column's MAXIMUM: on the first print of a table - when the
+                # widths are made for these very records - a column that may still grow shows it)
+                P("cell-cut-although-the-column-may-be-wider", cell=cell, value=text, width=w, hi=c['hi'], col=c['spec'])
     # ---- footer
     tail = lines[b2 + 1:]
     exp_footer = footer if footer is not None else "Total %d records" % len(recs)
